@@ -261,6 +261,15 @@ impl SecureMemory {
             return Ok(());
         }
 
+        // Miri cannot execute mlock(2); take the existing "mlock failed" path.
+        #[cfg(all(miri, feature = "verif-hooks"))]
+        if true {
+            return Err(P2PError::Io(std::io::Error::new(
+                std::io::ErrorKind::PermissionDenied,
+                "Failed to lock memory pages",
+            )));
+        }
+
         #[cfg(unix)]
         {
             let result = unsafe { mlock(self.ptr.as_ptr() as *const libc::c_void, self.size) };
